@@ -23,6 +23,8 @@ struct Tree {
 	explicit_ignores: Vec<(String, String)>, // (name under <root>/explicit/, content)
 	explicit_watches: Vec<String>,           // relative dirs
 	excludes_file: Option<String>,           // content of core.excludesFile target
+	/// ignore files (relative paths) that are symbolic links to a regular file kept outside the origin
+	linked: Vec<String>,
 }
 
 fn gen_lines(rng: &mut Rng) -> String {
@@ -144,7 +146,15 @@ fn gen_tree(rng: &mut Rng) -> Tree {
 	};
 	odd.sort();
 	odd.dedup();
-	Tree { dirs, files, odd, explicit_ignores, explicit_watches, excludes_file }
+	let linked = files
+		.iter()
+		.filter(|(f, _)| {
+			let name = f.rsplit('/').next().unwrap_or("");
+			matches!(name, ".gitignore" | ".ignore" | ".hgignore") && rng.chance(1, 8)
+		})
+		.map(|(f, _)| f.clone())
+		.collect();
+	Tree { dirs, files, odd, explicit_ignores, explicit_watches, excludes_file, linked }
 }
 
 fn materialise(root: &Path, t: &Tree, order_seed: u64) -> PathBuf {
@@ -170,7 +180,14 @@ fn materialise(root: &Path, t: &Tree, order_seed: u64) -> PathBuf {
 			continue;
 		}
 		std::fs::create_dir_all(p.parent().unwrap()).unwrap();
-		std::fs::write(p, c).unwrap();
+		if t.linked.contains(f) {
+			// the ignore file is a symbolic link to a regular file elsewhere (shared rules): it counts like the file
+			let target = root.join("explicit").join(format!("shared-{}", f.replace('/', "_")));
+			std::fs::write(&target, c).unwrap();
+			std::os::unix::fs::symlink(&target, &p).unwrap();
+		} else {
+			std::fs::write(p, c).unwrap();
+		}
 	}
 	for (n, c) in &t.explicit_ignores {
 		std::fs::write(root.join("explicit").join(n), c).unwrap();
@@ -278,7 +295,7 @@ async fn discover(root: &Path, origin: &Path, t: &Tree) -> (Found, Vec<String>) 
 
 fn tree_json(t: &Tree) -> Value {
 	json!({"dirs": t.dirs, "files": t.files.iter().map(|(f, c)| json!([f, c])).collect::<Vec<_>>(), "odd_dirs": t.odd,
-		"explicit_ignores": t.explicit_ignores, "explicit_watches": t.explicit_watches, "core_excludes_file": t.excludes_file})
+		"explicit_ignores": t.explicit_ignores, "explicit_watches": t.explicit_watches, "core_excludes_file": t.excludes_file, "symlinked_ignore_files": t.linked})
 }
 
 pub async fn run(args: &ShardArgs, rep: &mut Report) {
